@@ -78,6 +78,27 @@ func (c19) InitWorker() {
 
 // ---- models
 
+// c19ModelFiles: models made of several source files (root a.sysl). In "split" both files open the same
+// tables, and columns of the two files sit on the same line and column of their own file, so an order
+// taken from source positions alone does not decide between them.
+var c19ModelFiles = map[string]map[string]string{
+	"split": {
+		"a.sysl": "import b\n\nShop:\n    !table Customer:\n        id <: int [~pk]\n        zeta <: string\n        yankee <: string?\n        xray <: date\n    !table Order:\n        oid <: int [~pk]\n        cust <: Customer.id\n        zz <: int\n    !type Basket:\n        owner <: Customer\n        lines <: sequence of Order\n",
+		"b.sysl": "# columns shared with other models\nShop:\n    !table Customer:\n        note <: string\n        alpha <: string\n        bravo <: string?\n        charlie <: int\n    !table Order:\n        oa <: int\n        ob <: Customer.id\n        oc <: string\n    !type Basket:\n        count <: int\n        first <: Order\n        label <: string?\n",
+	},
+}
+
+func c19Parse(model string) (*sysl.Module, error) {
+	if files, ok := c19ModelFiles[model]; ok {
+		fs := afero.NewMemMapFs()
+		for name, text := range files {
+			_ = afero.WriteFile(fs, name, []byte(text), 0o644)
+		}
+		return parse.NewParser().ParseFromFs("a.sysl", fs)
+	}
+	return parse.NewParser().ParseString(c19Models[model])
+}
+
 var c19Models = map[string]string{
 	"rich": `Shop [version="1.0", owner="team", ~core, ~public, grp="g1"]:
     @doc = "d"
@@ -216,7 +237,7 @@ func joinMap(m map[string]string) []byte {
 }
 
 func c19Gens() []c19Gen {
-	all := []string{"rich", "mixins", "attrs"}
+	all := []string{"rich", "mixins", "attrs", "split"}
 	enc := func(name string, f func(w io.Writer, m *sysl.Module) error) c19Gen {
 		return c19Gen{Name: name, Models: all, Run: func(m *sysl.Module, _ string) ([]byte, error) {
 			var b bytes.Buffer
@@ -268,7 +289,7 @@ func c19Gens() []c19Gen {
 			}
 			return b.Bytes(), nil
 		}},
-		{Name: "datamodel-plantuml", Models: []string{"rich", "mixins"}, Run: func(m *sysl.Module, _ string) ([]byte, error) {
+		{Name: "datamodel-plantuml", Models: []string{"rich", "mixins", "split"}, Run: func(m *sysl.Module, _ string) ([]byte, error) {
 			var b bytes.Buffer
 			for _, o := range []string{"all", "%(epname)"} {
 				out, err := datamodeldiagram.GenerateDataModels(&cmdutils.CmdContextParamDatagen{Output: o, Direct: true, ClassFormat: "%(classname)"}, m, nullLogger())
@@ -302,15 +323,15 @@ func c19Gens() []c19Gen {
 			out, err := mepa.GenerateEndpointAnalysisDiagram(m)
 			return []byte(out), err
 		}},
-		{Name: "mermaid-data", Models: []string{"rich"}, Run: func(m *sysl.Module, _ string) ([]byte, error) {
+		{Name: "mermaid-data", Models: []string{"rich", "split"}, Run: func(m *sysl.Module, _ string) ([]byte, error) {
 			out, err := mdata.GenerateFullDataDiagram(m)
 			return []byte(out), err
 		}},
-		{Name: "db-create", Models: []string{"rich"}, Run: func(m *sysl.Module, _ string) ([]byte, error) {
+		{Name: "db-create", Models: []string{"rich", "split"}, Run: func(m *sysl.Module, _ string) ([]byte, error) {
 			v := database.MakeDatabaseScriptView("t", nullLogger())
 			return []byte(v.GenerateDatabaseScriptCreate(m.GetApps()["Shop"].GetTypes(), "postgres", "Shop")), nil
 		}},
-		{Name: "db-delta", Models: []string{"rich"}, Run: func(m *sysl.Module, _ string) ([]byte, error) {
+		{Name: "db-delta", Models: []string{"rich", "split"}, Run: func(m *sysl.Module, _ string) ([]byte, error) {
 			old, err := parse.NewParser().ParseString(c19OldRich)
 			if err != nil {
 				return nil, err
@@ -332,7 +353,7 @@ func c19Gens() []c19Gen {
 			return []byte(strings.Join(SchemaRows(s), "\n")), nil
 		}},
 		{Name: "compile", Models: all, Run: func(m *sysl.Module, model string) ([]byte, error) {
-			m2, err := parse.NewParser().ParseString(c19Models[model])
+			m2, err := c19Parse(model)
 			if err != nil {
 				return nil, err
 			}
@@ -404,7 +425,7 @@ func c19RunGen(gen, model string) (out []byte, errs string) {
 			errs = fmt.Sprintf("PANIC: %v", r)
 		}
 	}()
-	m, err := parse.NewParser().ParseString(c19Models[model])
+	m, err := c19Parse(model)
 	if err != nil {
 		return nil, "model does not compile: " + err.Error()
 	}
@@ -493,7 +514,7 @@ func (c19) Run(c core.Case) core.Outcome {
 	}
 	// the command repeated on ONE in-memory model (a generator that writes into its input changes its own
 	// second result)
-	if m, err := parse.NewParser().ParseString(c19Models[cs.Model]); err == nil {
+	if m, err := c19Parse(cs.Model); err == nil {
 		for _, g := range c19Gens() {
 			if g.Name != cs.Gen {
 				continue
